@@ -11,7 +11,7 @@ import numpy as np
 
 from harness import common as C
 
-ANCHORS = ["T1", "T3", "T5cpcca"]
+ANCHORS = ["T1", "T3", "T5cpcca", "T4"]
 MODELS = ["Validate"]
 TARGETS = ["Proofs/C17_tie.vo"]
 RULE = ("validators: enumerated grid of python values (ints incl. 0/negatives/bools, floats incl. 0.0, 1.0, 1.5, nan, inf, "
